@@ -119,7 +119,11 @@ SurStMenu(n) ==
         w == IF "y" \in FinalVars THEN "y" ELSE "x"
     IN {Empty,
         (o[1] :> ("x" :> M!Num(1))),
-        (o[1] :> ("x" :> M!Num(0 - 1))) @@ (o[2] :> (w :> Calc("id", <<"q">>)))}
+        (o[1] :> ("x" :> M!Num(0 - 1))) @@ (o[2] :> (w :> Calc("id", <<"q">>))),
+        \* state- and time-dependent coefficients on surrogate fluxes (they share a variable with the
+        \* computed coefficients of reactions in StMenu)
+        (o[1] :> ("x" :> Calc("neg", <<"x">>))) @@ (o[2] :> (w :> Calc("add", <<"time", w>>))),
+        (o[2] :> ("x" :> Calc("mul", <<"p", "x">>)))}
 
 \* a slot is filled in small steps (function, then one argument at a time, then commit with a
 \* stoichiometry) so that -simulate never has to enumerate a large successor set
